@@ -68,6 +68,8 @@ func (fr *frame) doCall(instr *ssa.Call, c *ssa.CallCommon, fnv Val, args []Val,
 			}
 		}
 		ft.havocked[c.Method.FullName()] = true
+		fr.escapeArgs(st, args)
+		fr.escape(st, Val{T: recv}, 0)
 		return fr.havocCall(instr, c.Signature(), ms, mayPanic, st, reach, xedges)
 	}
 	var callee *ssa.Function
@@ -102,12 +104,14 @@ func (fr *frame) doCall(instr *ssa.Call, c *ssa.CallCommon, fnv Val, args []Val,
 			}
 		}
 		ft.note("call of unknown function value in %s: effects of all address-taken functions of that signature", fr.fn)
+		fr.escapeArgs(st, args)
 		return fr.havocCall(instr, c.Signature(), ms, mp, st, reach, xedges)
 	}
 	if len(bindings) != len(callee.FreeVars) {
 		// closure value whose bindings are unknown here
 		if len(callee.FreeVars) > 0 {
 			ft.havocked[callee.String()] = true
+			fr.escapeArgs(st, args)
 			return fr.havocCall(instr, c.Signature(), e.modSetLevels(callee), e.mayPanic(callee), st, reach, xedges)
 		}
 	}
@@ -128,10 +132,12 @@ func (fr *frame) staticCall(instr *ssa.Call, c *ssa.CallCommon, callee *ssa.Func
 	// repository function without contract: inline
 	// closures of a function that is itself being verified are part of its body
 	ownClosure := callee.Parent() != nil && ft.onStack(callee.Parent())
-	if fr.depth < maxInlineDepth && !ft.onStack(callee) && (ownClosure || !e.noInline(callee)) {
+	if fr.depth < maxInlineDepth && !ft.onStack(callee) && (ownClosure || (!e.noInline(callee) && e.worthInlining(callee))) {
 		return fr.inline(instr, callee, args, bindings, st, reach, xedges)
 	}
 	ft.havocked[callee.String()] = true
+	fr.escapeArgs(st, args)
+	fr.escapeArgs(st, bindings)
 	return fr.havocCall(instr, callee.Signature, e.calleeEffects(callee, c), e.mayPanic(callee), st, reach, xedges)
 }
 
@@ -173,9 +179,13 @@ func (fr *frame) assumeTypeRange(t Term, typ types.Type) {
 	}
 }
 
-func (fr *frame) havocLevels(st *State, ms map[string]int) {
+func (fr *frame) havocLevels(st *State, ms map[string]int, byCallee bool) {
 	ft := fr.ft
 	allocOld := ft.heapTerm(st, allocHeap)
+	escNow := ""
+	if byCallee {
+		escNow = ft.heapTerm(st, escHeap)
+	}
 	for _, h := range sortedKeys(ms) {
 		if ms[h] == 0 {
 			continue
@@ -188,33 +198,92 @@ func (fr *frame) havocLevels(st *State, ms map[string]int) {
 		if !ok {
 			continue
 		}
+		h := h
+		prev := ft.rawHeap(st, h)
 		if ms[h] == modFresh && strings.HasPrefix(string(s), "(Array Ref ") {
-			old := ft.heapTerm(st, h)
-			ft.havocHeap(st, h)
-			nw := ft.heapTerm(st, h)
-			ft.assume("true", fmt.Sprintf("(forall ((r Ref)) (! (=> (select %s r) (= (select %s r) (select %s r))) :pattern ((select %s r))))", allocOld, nw, old, nw))
+			// only objects allocated during the call are written
+			st.heaps[h] = ft.lazy(func() string {
+				old := ft.forceRaw(prev)
+				nw := ft.fresh(h, s)
+				ft.assume("true", fmt.Sprintf("(forall ((r Ref)) (! (=> (select %s r) (= (select %s r) (select %s r))) :pattern ((select %s r))))", allocOld, nw, old, nw))
+				return nw
+			})
 			continue
 		}
 		if strings.HasPrefix(h, "G$ghost$") {
-			if g := ft.e.cs.Ghosts[strings.TrimPrefix(h, "G$ghost$")]; g != nil && g.Mono {
-				old := ft.heapTerm(st, h)
-				ft.havocHeap(st, h)
-				ft.assume("true", sx(">=", ft.heapTerm(st, h), old))
+			if g := ft.e.cs.Ghosts[strings.TrimPrefix(h, "G$ghost$")]; g != nil && g.StableOnReturn && ms[panickingHeap] == 0 {
 				continue
 			}
+			if g := ft.e.cs.Ghosts[strings.TrimPrefix(h, "G$ghost$")]; g != nil && g.Mono {
+				st.heaps[h] = ft.lazy(func() string {
+					old := ft.forceRaw(prev)
+					nw := ft.fresh(h, s)
+					ft.assume("true", sx(">=", nw, old))
+					return nw
+				})
+				continue
+			}
+		}
+		if byCallee && strings.HasPrefix(string(s), "(Array Ref ") && h != escHeap {
+			// a callee cannot touch objects that were allocated by the function
+			// under verification and never escaped (passed on or stored)
+			entry := ft.initialHeap(allocHeap)
+			st.heaps[h] = ft.lazy(func() string {
+				old := ft.forceRaw(prev)
+				nw := ft.fresh(h, s)
+				ft.assume("true", fmt.Sprintf("(forall ((r Ref)) (! (=> (and (not (select %s r)) (not (select %s r))) (= (select %s r) (select %s r))) :pattern ((select %s r))))", entry, escNow, nw, old, nw))
+				return nw
+			})
+			continue
 		}
 		ft.havocHeap(st, h)
 	}
 }
 
+// escape marks references that leave the control of the function under verification.
+func (fr *frame) escape(st *State, v Val, depth int) {
+	ft := fr.ft
+	if depth > 3 {
+		return
+	}
+	mark := func(r string) {
+		if r == "" || r == "null" {
+			return
+		}
+		ft.setHeap(st, escHeap, store(ft.heapTerm(st, escHeap), r, "true"))
+	}
+	if v.Clo != nil {
+		for _, b := range v.Clo.Bindings {
+			fr.escape(st, b, depth+1)
+		}
+	}
+	switch v.T.Sort {
+	case SRef:
+		mark(v.T.S)
+	case SSlice:
+		mark(sx("sbase", v.T.S))
+	}
+	for _, t := range v.Tuple {
+		fr.escape(st, t, depth+1)
+	}
+}
+
+func (fr *frame) escapeArgs(st *State, args []Val) {
+	for _, a := range args {
+		fr.escape(st, a, 0)
+	}
+}
+
 func (fr *frame) havocCall(instr *ssa.Call, sig *types.Signature, ms map[string]int, mayPanic bool, st *State, reach string, xedges *[]inEdge) string {
 	ft := fr.ft
-	fr.havocLevels(st, ms)
+	fr.havocLevels(st, ms, true)
 	if mayPanic {
 		threw := ft.fresh("threw", SBool)
 		xs := st.clone()
+		fr.havocStableForExc(xs, ms)
 		ft.setHeap(xs, panickingHeap, "true")
 		ft.havocHeap(xs, panicvalHeap)
+		ft.assume("true", not(eq(ft.heapTerm(xs, panicvalHeap), "null")))
 		*xedges = append(*xedges, inEdge{and(reach, threw), xs, nil})
 		reach = ft.define("reach_ret", SBool, and(reach, not(threw)))
 	}
@@ -356,7 +425,9 @@ func (fr *frame) applyContract(instr *ssa.Call, callee *ssa.Function, c *ssa.Cal
 	for _, u := range fc.Updates {
 		ms[e.ghostHeap(u.Label)] = 0 // set explicitly below
 	}
-	fr.havocLevels(st, ms)
+	fr.escapeArgs(st, args)
+	fr.escapeArgs(st, bindings)
+	fr.havocLevels(st, ms, true)
 	for _, u := range fc.Updates {
 		if !fc.Trusted {
 			// ghost code of a verified function: callers see it through ensures
@@ -374,8 +445,10 @@ func (fr *frame) applyContract(instr *ssa.Call, callee *ssa.Function, c *ssa.Cal
 	if mayPanic {
 		threw := ft.fresh("threw", SBool)
 		xs := st.clone()
+		fr.havocStableForExc(xs, ms)
 		ft.setHeap(xs, panickingHeap, "true")
 		ft.havocHeap(xs, panicvalHeap)
+		ft.assume("true", not(eq(ft.heapTerm(xs, panicvalHeap), "null")))
 		xenv := *env
 		xenv.cur = xs
 		xreach := ft.define("xreach_call", SBool, and(reach, threw))
@@ -408,6 +481,10 @@ func (fr *frame) applyContract(instr *ssa.Call, callee *ssa.Function, c *ssa.Cal
 			continue
 		}
 		ft.assume(reach, fact)
+	}
+	// references mentioned by the postconditions exist in the post-state
+	for _, l := range env.loads {
+		ft.assumeAllocated(st, reach, l)
 	}
 	return reach
 }
@@ -527,8 +604,13 @@ func (fr *frame) externalCall(instr *ssa.Call, callee *ssa.Function, c *ssa.Call
 			}
 		}
 	}
-	for _, h := range sortedKeys(ms) {
-		ft.havocHeap(st, h)
+	fr.escapeArgs(st, args)
+	if len(ms) > 0 {
+		lv := map[string]int{}
+		for h := range ms {
+			lv[h] = modAny
+		}
+		fr.havocLevels(st, lv, true)
 	}
 	if len(ms) > 0 {
 		e.usedExternals[name] = "havoc-args"
@@ -717,5 +799,19 @@ func (fr *frame) checkPreOnly(callee *ssa.Function, c *ssa.CallCommon, args, bin
 			continue
 		}
 		fr.oblig("pre", r.Props, pos, fmt.Sprintf("%s requires %s", shortFuncName(callee), r.name()), reach, goal)
+	}
+}
+
+// havocStableForExc: ghosts that are stable on normal return are not stable on
+// the exceptional edge of a call.
+func (fr *frame) havocStableForExc(xs *State, ms map[string]int) {
+	ft := fr.ft
+	for _, h := range sortedKeys(ms) {
+		if ms[h] == 0 || !strings.HasPrefix(h, "G$ghost$") {
+			continue
+		}
+		if g := ft.e.cs.Ghosts[strings.TrimPrefix(h, "G$ghost$")]; g != nil && g.StableOnReturn {
+			ft.havocHeap(xs, h)
+		}
 	}
 }
